@@ -176,6 +176,8 @@ class Kernel(Module):
         self._batch_shape = torch.Size([]) if batch_shape is None else batch_shape
         if active_dims is not None and not torch.is_tensor(active_dims):
             active_dims = torch.tensor(active_dims, dtype=torch.long)
+        elif active_dims is not None:
+            active_dims = active_dims.clone()  # a buffer of this kernel: never the caller's tensor
         self.register_buffer("active_dims", active_dims)
         self.ard_num_dims = ard_num_dims
 
